@@ -272,6 +272,18 @@ func checkPolicy(t *core.T, sig string, mk func() *xast.Policy, desc func() stri
 	if err := ap.UnmarshalJSON(js); err != nil || Canon((*xast.Policy)(&ap)) != want {
 		t.Fail("ast.Policy.UnmarshalJSON-differs:"+sig, in(), want, fmt.Sprint(err))
 	}
+	// decoding REPLACES the receiver: a target that already holds another policy (a reused
+	// variable, a builder-made policy) ends up exactly as a fresh one would
+	dirtyAST := dirtyPolicy()
+	if err := dirtyAST.UnmarshalJSON(js); err != nil || Canon((*xast.Policy)(dirtyAST)) != want {
+		t.Fail("ast.Policy.UnmarshalJSON-into-used-receiver:"+sig, in(), want, fmt.Sprintf("%v %s", err, Canon((*xast.Policy)(dirtyAST))))
+	}
+	dirty := cedar.NewPolicyFromAST(dirtyPolicy())
+	if err := dirty.UnmarshalJSON(js); err != nil || Canon((*xast.Policy)(dirty.AST())) != want {
+		t.Fail("Policy.UnmarshalJSON-into-used-receiver:"+sig, in(), want, fmt.Sprintf("%v %s", err, Canon((*xast.Policy)(dirty.AST()))))
+	} else if a := authz(dirty); a != authz(orig) {
+		t.Fail("Policy.UnmarshalJSON-into-used-receiver:"+sig, in(), authz(orig), a)
+	}
 	a0 := authz(orig)
 	if a1 := authz(&back); a1 != a0 {
 		t.Fail("json-roundtrip-changes-authorization:"+sig, in(), a0, a1)
@@ -308,6 +320,13 @@ func checkPolicy(t *core.T, sig string, mk func() *xast.Policy, desc func() stri
 		t.Fail("text+json-encoding-changes-authorization:"+sig, in(), a0, a3)
 	}
 	t.AddTrans(3)
+}
+
+// dirtyPolicy: a policy with every part populated, used as a decode target that is not the zero value.
+func dirtyPolicy() *publicast.Policy {
+	p := xast.Forbid().Annotate("zz", "old").Annotate("id", "old").PrincipalIs("Old").ActionInSet(types.NewEntityUID("Old", "a")).ResourceEq(types.NewEntityUID("Old", "r")).
+		When(xast.False()).Unless(xast.Context().Has("old"))
+	return (*publicast.Policy)(p)
 }
 
 func checkExpr(t *core.T, sig string, e *Expr) {
